@@ -16,4 +16,7 @@ def queries(ctx):
     # a second call in the same process image (failed exec followed by another exec, vfork, threads) behaves like the first
     for k in (3, 2, 4):
         qs.append(oc.out_query(k, kf=ctx["kf"], prefix="twice", extra_defines=("TWICE=1",)))
+    # large pids (Linux pid_max may be 2^22): decimal rendering is solver-hard, so the range is partitioned: base + 6 symbolic bits
+    for base in (99990, 999990, 4194240):
+        qs.append(oc.out_query(0, kf=ctx["kf"], prefix="pid%d" % base, extra_defines=("PIDBASE=%d" % base, "PIDBITS=6")))
     return qs
